@@ -111,7 +111,7 @@ CallsTerminate == [](~fr.done => <>fr.done)
 (***************************************************************************)
 OnlyPlain == plain
 
-Inv_WF == RootOK(S, D) /\ EdgesWF(D) /\ IndexExact(D) /\ NodesArePercolatedTraps(S, D)
+Inv_WF == RootOK(S, D) /\ EdgesWF(D) /\ EdgesDescend(D) /\ IndexExact(D) /\ NodesArePercolatedTraps(S, D)
 Inv_PartialFaithful == PartialFaithfulS(S, D, plain)
 Inv_DepthExact == DepthExact(D)
 Inv_CacheFresh == CacheFresh(S, D)
